@@ -14,6 +14,7 @@ CmpE(op, l, r) == [k |-> "cmp", op |-> op, l |-> l, r |-> r]
 LikeE(neg, l, r) == [k |-> "like", neg |-> neg, l |-> l, r |-> r]
 InE(neg, l, list) == [k |-> "in", neg |-> neg, l |-> l, list |-> list]
 InSub(l, q) == [k |-> "insub", l |-> l, q |-> q]
+NotInSub(l, q) == [k |-> "insub", l |-> l, q |-> q, neg |-> TRUE]
 Between(neg, e, lo, hi) == [k |-> "between", neg |-> neg, e |-> e, lo |-> lo, hi |-> hi]
 IsE(op, e)  == [k |-> "is", op |-> op, e |-> e]
 AndE(l, r)  == [k |-> "and", l |-> l, r |-> r]
